@@ -141,6 +141,175 @@ def gen(t, sform, shape, forms, lens, src_kind, domain, tier):
     return h
 
 
+# ------------------------------------------------------------------------------------------------ op-assignment (+= -= *= /=)
+OPA = {"Add": ("+", "checked_add"), "Sub": ("-", "checked_sub"), "Mul": ("*", "checked_mul"), "Div": ("/", "checked_div")}
+
+
+def opa_where(op):
+    return ("math", "src/op_assign/%s_assign.rs" % op.lower())
+
+
+def opa_slice(op, t):
+    from . import c01
+    return ",".join(dict.fromkeys(c01.SLICE_BASE + [c01.KIND_FEATURE.get(t, t), "%s_assign" % op.lower()]))
+
+
+def opa_pre(op, t, a, b_):
+    """precondition under which `a op b` is the exact result in kind t (rust bool expr), and the expected value"""
+    sym, chk = OPA[op]
+    if t in INTS:
+        return "%s.%s(%s).is_some()" % (a, chk, b_), "(%s %s %s)" % (a, sym, b_)
+    return "true", "(%s %s %s)" % (a, sym, b_)
+
+
+def gen_opa_value(op, t, sform, shape, srcform, tier):
+    """L2: <op>_assign_math_fxn(sink, source) - `x op= s` / `x op= y` on a whole variable"""
+    R, C = shape
+    N = R * C
+    fxn = "%s_assign_math_fxn" % op.lower()
+    b = [sym_array(t, "old", N)]
+    if sform == "S":
+        b.append("let sc = Ref::new(old[0]);")
+        b.append("let sink = Value::%s(sc.clone());" % TY_VARIANT[t])
+    else:
+        b.append("let sc = Ref::new(%s);" % mk_form(sform, t, "old", shape))
+        b.append("let sink = %s;" % value_of(sform, t, "sc.clone()"))
+    M = 1 if srcform == "S" else N
+    b.append(sym_array(t, "src", M))
+    if srcform == "S":
+        b.append("let rc = Ref::new(src[0]);")
+        b.append("let source = Value::%s(rc.clone());" % TY_VARIANT[t])
+    else:
+        b.append("let rc = Ref::new(%s);" % mk_form(srcform, t, "src", shape))
+        b.append("let source = %s;" % value_of(srcform, t, "rc.clone()"))
+    pres, wants = [], []
+    for k in range(N):
+        pr, w = opa_pre(op, t, "old[%d]" % k, "src[%d]" % (0 if srcform == "S" else k))
+        pres.append(pr)
+        wants.append(w)
+    pres = [x for x in pres if x != "true"]
+    if pres:
+        b.append("kani::assume(%s);" % " && ".join(pres))
+    b.append("let want: [%s; %d] = [%s];" % (t, N, ", ".join(wants)))
+    b.append("kani::cover!(true, \"VP:reached-call\");")
+    b.append("match %s(sink, source) {" % fxn)
+    b.append("  Err(e) => { forget(e); assert!(false, \"VP:rejected-valid-op-assignment\"); }")
+    b.append("  Ok(f) => {")
+    b.append("    f.solve();")
+    if sform == "S":
+        b.append("    { let cur = sc.borrow(); assert!(%s, \"VP:wrong-post-state\"); }" % eq_expr(t, "(*cur)", "want[0]"))
+    else:
+        b.append("    { let cur = sc.borrow(); assert!(cur.nrows() == %d && cur.ncols() == %d, \"VP:shape-changed\"); assert!(%s, \"VP:wrong-post-state\"); }"
+                 % (R, C, " && ".join(eq_expr(t, "cur[%d]" % k, "want[%d]" % k) for k in range(N))))
+    if srcform == "S":
+        b.append("    { let r = rc.borrow(); assert!(%s, \"VP:source-modified\"); }" % eq_expr(t, "(*r)", "src[0]"))
+    else:
+        b.append("    { let r = rc.borrow(); assert!(%s, \"VP:source-modified\"); }" % " && ".join(eq_expr(t, "r[%d]" % k, "src[%d]" % k) for k in range(N)))
+    b.append("    kani::cover!(true, \"VP:reached\");")
+    b.append("    forget(f);")
+    b.append("  }")
+    b.append("}")
+    b.append("forget(sc); forget(rc);")
+    name = "c04_opa_%s_%s_%s%dx%d_%s" % (op.lower(), t.lower(), sform.lower(), R, C, srcform.lower())
+    h = H(name, "    " + "\n    ".join(b), opa_where(op), domain="accept", key="%s/%s/%s/%s" % (fxn, t, sform, srcform),
+          desc="x %s= y on a whole variable: sink %s %dx%d, source %s, kind %s: every element becomes old %s source (exact when representable), "
+               "shape and source unchanged" % (OPA[op][0], sform, R, C, srcform, t, OPA[op][0]),
+          functions=["%s (machines/math/src/op_assign/%s_assign.rs: impl_op_assign_value_match_arms! dispatch)" % (fxn, op.lower()),
+                     "%sAssignSS / %sAssignVS / %sAssignVV ::solve via dyn MechFunction" % (op, op, op)],
+          bounds="sink %dx%d, all element values (integers: exact result representable)" % (R, C), unwind=N + 2, tier=tier, group="opa-value", solver="kissat")
+    h.slice = opa_slice(op, t)
+    h.heavy = True
+    return h
+
+
+def gen_opa_index(op, t, sform, shape, mode, tier):
+    """L1: the op-assign range structs, built as the set-range arms build them.
+    mode: RS  x[[i..]] op= s      (index vector, scalar source)          <Op>Assign1DRS
+          RB  x[mask]   op= s      (logical mask, scalar source)          <Op>Assign1DRB
+          RV  x[[i..]] op= v      (index vector, vector source)          <Op>Assign1DRV
+          RVB x[mask]   op= v      (logical mask, vector source)          <Op>Assign1DRVB
+          AS  x[[r..],:] op= s    (row index vector, all columns)        <Op>Assign2DRAS
+          ASB x[mask,:] op= s                                             <Op>Assign2DRASB"""
+    R, C = shape
+    N = R * C
+    sym, chk = OPA[op]
+    struct = {"RS": "1DRS", "RB": "1DRB", "RV": "1DRV", "RVB": "1DRVB", "AS": "2DRAS", "ASB": "2DRASB"}[mode]
+    mat = {"RD": "RowDVector", "VD": "DVector", "MD": "DMatrix"}[sform]
+    b = [sym_array(t, "old", N), "let sc = Ref::new(%s);" % mk_form(sform, t, "old", shape)]
+    two_d = mode in ("AS", "ASB")
+    dim = R if two_d else N
+    mask = mode in ("RB", "RVB", "ASB")
+    vec_src = mode in ("RV", "RVB")
+    K = 2                      # index vector length
+    if mask:
+        b.append("let ix: [bool; %d] = kani::any();" % dim)
+        b.append("let ixc = Ref::new(DVector::<bool>::from_vec(ix.to_vec()));")
+    else:
+        b.append("let ix: [usize; %d] = kani::any();" % K)
+        b.append("kani::assume(%s);" % " && ".join(["ix[%d] >= 1 && ix[%d] <= %d" % (k, k, dim) for k in range(K)] + ["ix[0] != ix[1]"]))
+        b.append("let ixc = Ref::new(DVector::<usize>::from_vec(ix.to_vec()));")
+    if vec_src:
+        nsrc = dim if mask else K
+        b.append(sym_array(t, "src", nsrc))
+        b.append("let rc = Ref::new(DVector::<%s>::from_vec(src.to_vec()));" % t)
+    else:
+        b.append(sym_array(t, "src", 1))
+        b.append("let rc = Ref::new(src[0]);")
+    # expected post-state
+    b.append("let mut want: [%s; %d] = old;" % (t, N))
+    b.append("let mut pre = true;")
+    def upd(pos_expr, src_expr):
+        if t in INTS:
+            return "{ let p = %s; match want[p].%s(%s) { Some(w) => { want[p] = w; } None => { pre = false; } } }" % (pos_expr, chk, src_expr)
+        return "{ let p = %s; want[p] = want[p] %s %s; }" % (pos_expr, sym, src_expr)
+    if not two_d:
+        if mask:
+            if vec_src:
+                # <op>_assign_1d_range_vec_b: sink[i] op= source[i] at the true positions (source indexed by position)
+                for i in range(dim):
+                    b.append("if ix[%d] %s" % (i, upd(str(i), "src[%d]" % i)))
+            else:
+                for i in range(dim):
+                    b.append("if ix[%d] %s" % (i, upd(str(i), "src[0]")))
+        else:
+            for k in range(K):
+                b.append(upd("ix[%d] - 1" % k, "src[%d]" % (k if vec_src else 0)))
+    else:
+        for c_ in range(C):
+            if mask:
+                for i in range(R):
+                    b.append("if ix[%d] %s" % (i, upd(str(i + c_ * R), "src[0]")))
+            else:
+                for k in range(K):
+                    b.append(upd("(ix[%d] - 1) + %d" % (k, c_ * R), "src[0]"))
+    b.append("kani::assume(pre);")
+    if vec_src:
+        b.append("let f = %sAssign%s::<%s, %s<%s>, DVector<%s>, DVector<%s>> { source: rc.clone(), ixes: ixc.clone(), sink: sc.clone(), _marker: ::std::marker::PhantomData };"
+                 % (op, struct, t, mat, t, t, "bool" if mask else "usize"))
+    else:
+        b.append("let f = %sAssign%s::<%s, %s<%s>, DVector<%s>> { source: rc.clone(), ixes: ixc.clone(), sink: sc.clone(), _marker: ::std::marker::PhantomData };"
+                 % (op, struct, t, mat, t, "bool" if mask else "usize"))
+    b.append("f.solve();")
+    b.append("{ let cur = sc.borrow(); assert!(cur.nrows() == %d && cur.ncols() == %d, \"VP:shape-changed\"); assert!(%s, \"VP:wrong-post-state\"); }"
+             % (R, C, " && ".join(eq_expr(t, "cur[%d]" % k, "want[%d]" % k) for k in range(N))))
+    b.append("kani::cover!(true, \"VP:reached\");")
+    if mask:
+        b.append("kani::cover!(%s, \"VP:reached-partial-mask\");" % " && ".join(("ix[%d]" if i % 2 == 0 else "!ix[%d]") % i for i in range(dim)))
+    b.append("forget(f); forget(sc); forget(rc); forget(ixc);")
+    name = "c04_opa_%s_%s_%s%dx%d_%s" % (op.lower(), t.lower(), sform.lower(), R, C, mode.lower())
+    h = H(name, "    " + "\n    ".join(b), opa_where(op), domain="accept", key="L1/%sAssign%s/%s/%s" % (op, struct, t, sform),
+          desc="%sAssign%s<%s> on a %dx%d %s from an arbitrary pre-state (%s): addressed elements become old %s source, every other element and the "
+               "shape unchanged" % (op, struct, t, R, C, sform, {"RS": "two distinct linear indices, scalar source", "RB": "symbolic mask, scalar source",
+               "RV": "two distinct linear indices, vector source", "RVB": "symbolic mask, vector source", "AS": "two distinct row indices, all columns, scalar source",
+               "ASB": "symbolic row mask, all columns, scalar source"}[mode], sym),
+          functions=["%sAssign%s::solve (machines/math/src/op_assign/%s_assign.rs + mod.rs: impl_op_assign_range_fxn_{s,v}!, %s_assign_* kernel macro)" % (op, struct, op.lower(), op.lower())],
+          bounds="sink %dx%d, all element values (integers: exact results representable); index vectors of 2 distinct in-range indices; masks of the dimension's length" % (R, C),
+          unwind=max(N, K) + 2, tier=tier, group="opa-index")
+    from . import c01
+    h.slice = c01.l1_slice("math")
+    return h
+
+
 def plan(tier, seed):
     hs = []
     t = "f64"
@@ -172,6 +341,19 @@ def plan(tier, seed):
     for sform, shape in (("RD", (1, 3)), ("MD", (2, 2))):
         hs.append(gen("u8", sform, shape, ("S",), (0,), "scalar", "accept", "thorough"))
         hs.append(gen("i64", sform, shape, ("V",), (2,), "scalar", "accept", "thorough"))
+    # op-assignment
+    opa = []
+    ops = ["Add", "Sub", "Mul", "Div"]
+    for n, op in enumerate(ops):
+        tt = ["i64", "u8", "f64", "i16"][(n + seed) % 4]
+        if op == "Div":
+            tt = ["u8", "f32", "i8", "u8"][(n + seed) % 4]        # 64-bit symbolic-by-symbolic division gets no verdict
+        for k, (sf, sh, srcf) in enumerate((("S", (1, 1), "S"), ("VD", (3, 1), "S"), ("MD", (2, 2), "S"), ("RD", (1, 3), "S"), ("VD", (3, 1), "VD"), ("MD", (2, 2), "MD"), ("RD", (1, 2), "RD"))):
+            opa.append(gen_opa_value(op, tt, sf, sh, srcf, "quick" if k in ((n + seed) % 7, (n + seed + 3) % 7) else "thorough"))
+        for k, (sf, sh, mode) in enumerate((("VD", (3, 1), "RS"), ("RD", (1, 3), "RB"), ("VD", (3, 1), "RV"), ("MD", (2, 2), "RVB"), ("MD", (2, 2), "AS"), ("MD", (2, 2), "ASB"),
+                                            ("MD", (2, 2), "RS"), ("VD", (3, 1), "RB"), ("RD", (1, 3), "RV"), ("VD", (3, 1), "RVB"))):
+            opa.append(gen_opa_index(op, tt, sf, sh, mode, "quick" if k < 6 and (k + n + seed) % 2 == 0 else "thorough"))
+    hs += opa
     src = read_repo("src/interpreter/src/stdlib/assign/matrix.rs")
     prelude, extracted = "", {}
     for fx in sorted(set(list(DISPATCH_1D.values()) + list(DISPATCH_2D.values())) - MACRO_GENERATED):
